@@ -425,13 +425,20 @@ func (cfg *Config) loadCertFromStorage(ctx context.Context, logger *zap.Logger, 
 		zap.Bool("managed", loadedCert.managed),
 		zap.Time("expiration", expiresAt(loadedCert.Leaf)),
 		zap.String("hash", loadedCert.hash))
-	loadedCert, err = cfg.handshakeMaintenance(ctx, hello, loadedCert)
+	maintainedCert, err := cfg.handshakeMaintenance(ctx, hello, loadedCert)
 	if err != nil {
 		logger.Error("maintaining newly-loaded certificate",
 			zap.String("server_name", name),
 			zap.Error(err))
+		// maintenance can fail without yielding a certificate (for example, the
+		// loaded certificate has expired and could not be renewed, or renewing
+		// it is no longer allowed, in which case it was also removed from the
+		// cache); never return an empty certificate together with a nil error
+		if maintainedCert.Empty() {
+			return Certificate{}, fmt.Errorf("maintaining newly-loaded certificate for %s: %w", name, err)
+		}
 	}
-	return loadedCert, nil
+	return maintainedCert, nil
 }
 
 // optionalMaintenance will perform maintenance on the certificate (if necessary) and
